@@ -1,7 +1,97 @@
-(* C16 -- property theorems only: each is closed by [exact] of a lemma proved elsewhere. *)
-From Coq Require Import List Arith ZArith.
-From Muscle Require Import Cont.QueueModel Cont.QueueProofs.
+(* C16 -- property theorems only: each is closed by [exact] of a lemma proved elsewhere.
 
-Theorem C16_upd_length : forall a i v, length (upd a i v) = length a.
-Proof. exact upd_length. Qed.
-Print Assumptions C16_upd_length.
+   Reading guide.  [step1 ow jk sq] is the code-shaped model of util/Queue.h (ring window over a
+   NULL / inline / heap array, EnsureSizeAux's reallocation policy, ...) for owning (ow=true) or
+   trivially copyable (ow=false) items, jk being what an uninitialised trivial slot holds and sq the
+   inline array size; [step0] is the ideal sequence; [abs] reads the user-visible items off the
+   representation; [inv] is the representation invariant (spelled out by C16_inv_meaning). *)
+From Coq Require Import List Arith ZArith.
+From Muscle Require Import Cont.QueueModel Cont.QueueInv Cont.QueueProofs.
+Import ListNotations.
+
+(* what the invariant says, slot by slot *)
+Theorem C16_inv_meaning : forall (ow : bool) (sq : nat) (q : q1),
+  inv ow sq q <->
+  (0 < sq /\ cnt q <= qsize q /\ (0 < qsize q -> head q < qsize q) /\
+   (0 < cnt q -> tail q = intern q (cnt q - 1)) /\
+   match st q with SNull => arr q = [] | SSmall => qsize q = sq | SHeap => sq <= qsize q end /\
+   (ow = true -> forall s, s < qsize q -> (forall i, i < cnt q -> intern q i <> s) ->
+      nth s (arr q) dflt = dflt)).
+Proof. exact inv_slots_iff. Qed.
+Print Assumptions C16_inv_meaning.
+
+Theorem C16_inv_empty : forall (ow : bool) (sq : nat), 0 < sq -> inv ow sq empty_q.
+Proof. exact inv_empty. Qed.
+Print Assumptions C16_inv_empty.
+
+(* every one of the 24 modelled operations, on every state satisfying the invariant, for both item
+   kinds, every junk value and every inline-array size: the invariant is preserved, the resulting
+   items are those of the ideal sequence and the result (value / status / count / index) is the same *)
+Theorem C16_step_refines : forall (ow : bool) (jk : Z) (sq : nat) (q : q1) (o : op),
+  inv ow sq q ->
+  inv ow sq (fst (step1 ow jk sq q o)) /\
+  abs (fst (step1 ow jk sq q o)) = fst (step0 (abs q) o) /\
+  snd (step1 ow jk sq q o) = snd (step0 (abs q) o).
+Proof. exact step_refines. Qed.
+Print Assumptions C16_step_refines.
+
+(* a failing operation (bad index, empty queue, item not found) leaves the representation unchanged *)
+Theorem C16_fail_unchanged : forall (ow : bool) (jk : Z) (sq : nat) (q : q1) (o : op),
+  snd (step1 ow jk sq q o) = OVal None \/ snd (step1 ow jk sq q o) = OStatus false ->
+  fst (step1 ow jk sq q o) = q.
+Proof. exact step_fail_unchanged. Qed.
+Print Assumptions C16_fail_unchanged.
+
+(* every operation list from the empty queue *)
+Theorem C16_queue_refines : forall (ow : bool) (jk : Z) (sq : nat) (ops : list op), 0 < sq ->
+  inv ow sq (fst (run1 ow jk sq ops)) /\
+  abs (fst (run1 ow jk sq ops)) = fst (run0 ops) /\
+  snd (run1 ow jk sq ops) = snd (run0 ops).
+Proof. exact run_refines. Qed.
+Print Assumptions C16_queue_refines.
+
+(* ... in particular for the SMALL_QUEUE_SIZE translated from util/Queue.h *)
+Theorem C16_queue_refines_code_constant : forall (ow : bool) (jk : Z) (ops : list op),
+  inv ow small_queue_size (fst (run1 ow jk small_queue_size ops)) /\
+  abs (fst (run1 ow jk small_queue_size ops)) = fst (run0 ops) /\
+  snd (run1 ow jk small_queue_size ops) = snd (run0 ops).
+Proof. exact run_refines_code_constant. Qed.
+Print Assumptions C16_queue_refines_code_constant.
+
+Theorem C16_reachable_inv : forall (ow : bool) (jk : Z) (sq : nat) (q : q1),
+  0 < sq -> reachable ow jk sq q -> inv ow sq q.
+Proof. exact reachable_inv. Qed.
+Print Assumptions C16_reachable_inv.
+
+(* no stale items: growing the count with EnsureSize(n, true) yields default items, both item kinds *)
+Theorem C16_no_stale_grow : forall (ow : bool) (jk : Z) (sq : nat) (q : q1) (n extra : nat) (shrink : bool),
+  inv ow sq q -> cnt q <= n ->
+  let q' := ensure_size ow jk sq q n true extra shrink in
+  cnt q' = n /\ (forall i, i < cnt q -> getu q' i = getu q i) /\
+  (forall i, cnt q <= i < n -> getu q' i = dflt).
+Proof. exact no_stale_grow. Qed.
+Print Assumptions C16_no_stale_grow.
+
+(* no stale items: owning items never survive outside the window (shrink, wrap-around, removal) *)
+Theorem C16_no_stale_slots : forall (ow : bool) (jk : Z) (sq : nat) (q : q1),
+  0 < sq -> ow = true -> reachable ow jk sq q ->
+  forall s, s < qsize q -> (forall i, i < cnt q -> intern q i <> s) -> nth s (arr q) dflt = dflt.
+Proof. exact no_stale_slots. Qed.
+Print Assumptions C16_no_stale_slots.
+
+(* nothing a user observes depends on uninitialised memory *)
+Theorem C16_junk_independent : forall (ow : bool) (sq : nat) (jk1 jk2 : Z) (ops : list op), 0 < sq ->
+  abs (fst (run1 ow jk1 sq ops)) = abs (fst (run1 ow jk2 sq ops)) /\
+  snd (run1 ow jk1 sq ops) = snd (run1 ow jk2 sq ops).
+Proof. exact junk_independent. Qed.
+Print Assumptions C16_junk_independent.
+
+(* non-vacuity of the premise [inv q]: a reachable wrapped-around state on the inline array, and a
+   heap state of trivial items with junk outside the window *)
+Example C16_wrapped_state : exists q,
+  reachable true 0%Z 3 q /\ inv true 3 q /\ st q = SSmall /\ cnt q = 3 /\ head q = 1 /\ tail q = 0.
+Proof. exact wrapped_state. Qed.
+
+Example C16_heap_state : exists q,
+  inv false 3 q /\ st q = SHeap /\ cnt q = 2 /\ In 77%Z (arr q) /\ ~ In 77%Z (abs q).
+Proof. exact heap_state. Qed.
